@@ -653,13 +653,22 @@ Proof.
   (* after the bookkeeping: run the armed action or make the transition *)
   assert (Hmid : forall next w1, P w1 ->
             wp (bind get (fun w => if is_terminated w then ret tt
-                                   else match intr w with Some a => run_action a next | None => transition next end))
+                                   else match intr w with
+                                        | Some a => bind (run_action a next) (fun _ => run_armed armed_fuel (Some a))
+                                        | None => bind (transition next) (fun _ => run_armed armed_fuel None)
+                                        end))
                (fun r s' => wp (bind (modify (fun w => w <| stepping := false |>)) (fun _ => set_interrupt_action None))
                                (fun r2 s'' => match r2 with Ok _ => Q r s'' | Err e => Q (Err e) s'' end) s') w1).
   { intros next w1 P1. do 2 wp_prim. destruct (is_terminated w1); [wp_prim; apply Hfin; exact P1|].
+    assert (Harm : forall fuel ran, PK (run_armed fuel ran)).
+    { induction fuel as [|f IHf]; intros ran wz; cbn [run_armed]; [apply Pat_raise|]. pstep. destruct (is_terminated wz); [apply Pat_ret|].
+      destruct (intr wz); [|apply Pat_ret]. match goal with |- Hat _ _ (if ?c then _ else _) _ => destruct c end; [apply Pat_ret|].
+      pstep; [apply run_action_PK | intro; apply IHf]. }
     destruct (intr w1).
-    - apply run_action_PK; [exact P1|]. intros r w2 R2. apply Hfin. apply R2.
-    - apply transition_PK; [exact P1|]. intros r w2 R2. apply Hfin. apply R2. }
+    - assert (HK : Pat (bind (run_action n next) (fun _ => run_armed armed_fuel (Some n))) w1) by (pstep; [apply run_action_PK | intro; apply Harm]).
+      apply HK; [exact P1|]. intros r w2 R2. apply Hfin. apply R2.
+    - assert (HK : Pat (bind (transition next) (fun _ => run_armed armed_fuel None)) w1) by (pstep; [apply transition_PK | intro; apply Harm]).
+      apply HK; [exact P1|]. intros r w2 R2. apply Hfin. apply R2. }
   wp_prim. destruct x.
   - wp_prim. cbv beta iota. apply Hmid. exact HP.
   - wp_prim. cbv beta iota. apply Hmid. exact HP.
